@@ -16,6 +16,7 @@ func init() {
 			goCaptureRule(r, "h2")
 			goBlockRule(r, "h2")
 			noReentrantLockRule(r, "h2")
+			fieldWritersRule(r, "", "Proxy", "closing", map[string]bool{"M.NewProxy": true}, "the shutdown channel is replaced after construction: an HTTP/2 session started before keeps watching the old one, Proxy.Close never stops it and waits for ever")
 			// the session stays under the connection's deadline: nothing in the core disarms it before
 			// the tunnel is handed to the relay (a client that stops reading would otherwise pin the
 			// session, its upstream connection and Proxy.Close for ever)
